@@ -910,6 +910,31 @@ def seed_fallthrough_events(ctx, rule="EXH-seed-fallthrough"):
     if good_raise is None:
         ctx.bad(rule, construct, "raise site['lowering_exception'] under enforce_lowering_exception when a sub-jaxpr holds a sampling site", "; ".join(dict.fromkeys(problems)), loc)
         return
+    # O5: nothing else decides whether the check runs.  Every literal on the raise's path is a dispatch test on the interpreted equation,
+    # part of the search / of the site's own parameters (it mentions equations of a jaxpr taken from this equation's params), or the flag
+    # policy; any other condition (tracer-ness of the operands, an argument of seed, a module switch) opens a path on which a site exists
+    # and the equation is re-bound all the same.
+    FLAGS = {N(PJ + "enforce_lowering_exception"), N(PJ + "lowering_warning")}
+
+    def about_sub_jaxpr(c):
+        for x in subterms(c):
+            if x[0] == "iter":
+                for y in subterms(x[2]):
+                    if y[0] == "attr" and y[2] == "params" and y[1][0] == "iter" and y[1][2] == ("attr", ("param", "jaxpr"), "eqns"):
+                        return True
+        return False
+
+    def is_dispatch(c):
+        subj = [x[1] for x in subterms(c) if x[0] == "attr" and x[2] == "primitive" and x[1][0] == "iter"]
+        return bool(subj) and all(x[2] == ("attr", ("param", "jaxpr"), "eqns") for x in subj) and any(x[0] == "name" and (x[1] in PRIMS or x[1].endswith("_p")) for x in subterms(c))
+    extra = [(c, v) for c, v in good_raise[0] if isinstance(c, tuple) and c and c[0] != "loop" and not is_dispatch(c) and not about_sub_jaxpr(c)
+             and not any(x in FLAGS for x in subterms(c))]
+    if extra:
+        c, v = extra[0]
+        ctx.bad(rule, construct, "the sub-jaxpr check runs for every equation reaching the fall-through arm",
+                f"the check is made only when {short(c, ev, 120)} is {v}: on the other path an equation whose sub-jaxprs hold a sampling site is re-bound as it is "
+                "(for tracer-ness tests: eager jax.vmap / jax.grad / jax.jvp of the seeded function trace without lowering, so the site runs its keyless impl silently)", loc)
+        return
     # O4 (search completeness): structural facts about the search, gathered over the arm's events before the bind
     allterms = []
     for e in els[:ib]:
